@@ -1,7 +1,7 @@
 (* C12 - delete_tags removes every live key carrying the tag.  The unchanged code violates the full property in two
    recorded ways (KNOWN_FINDINGS F20, F21); the faithful model therefore refutes the full statement (witnesses below,
    replayed on the implementation by corpus/C12), and what is proved is the part that does hold.  Statements only. *)
-From Cashews Require Import Base.Prelude Spec.TTLMap Model.Tags Run.C12 Proofs.TagsProofs Proofs.TagsCompleteProofs Proofs.TagsPreciseProofs.
+From Cashews Require Import Base.Prelude Spec.TTLMap Model.Tags Run.C12 Proofs.TagsProofs Proofs.TagsCompleteProofs Proofs.TagsPreciseProofs Proofs.TagsTTLProofs.
 Open Scope Z_scope.
 
 (* a write with tags makes the key a member of each named tag's set at once, for every TTL (none, short, long) *)
@@ -68,4 +68,32 @@ Proof.
   constructor; [cbn [snd ev_reg]; split; [reflexivity|split; [apply NT; auto|intros t [<-|[]]; vm_compute; auto]]|].
   constructor; [cbn [snd ev_reg]; apply NT; auto|].
   constructor; [cbn [snd ev_reg]; split; [reflexivity|split; [apply NT; auto|intros t []]]|constructor].
+Qed.
+
+(* completeness WITH TTLs: F20 is the only way TTLs break it.  For every time-ordered history (any TTLs on keys and tag
+   sets, lazy expiry at every step, any registry, any order of writes) in which no tagged write leaves a tag set with a
+   deadline earlier than that of one of its live members (`excl_f20 = false`: the computable predicate by which the check
+   classifies F20), after delete_tags(t) - at any later time - no key whose latest write carried t is readable.
+   `tstep` is the ghost "tags carried by the latest write of each key"; InvT (the invariant carried through the history)
+   says a live key is a member of the live set of each such tag and that set does not lapse before the key. *)
+Theorem C12_complete_with_ttl_unless_F20 : forall reg keys h t0, Forall not_tagkey keys -> Forall (fun te => ev_okT (snd te)) h ->
+  mono t0 h -> excl_f20 reg keys empty h = false ->
+  let '(m, i) := run_t reg keys empty (fun _ => []) h in
+  forall now t k, lastt t0 h <= now -> not_tagkey k -> In t (i k) -> s_look (tag_step reg keys m now (TDeleteTags t)) now k = None.
+Proof. exact tags_complete_ttl. Qed.
+Print Assumptions C12_complete_with_ttl_unless_F20.
+
+(* non-vacuity: two members with different TTLs, the later add extends the set's life (the reverse order is h_F20);
+   a:1 expires and is written again without the tag; the premises hold, a:2 carries ta and goes, a:1 and b:1 stay *)
+Definition h_ttl : list (Z * tev) :=
+  [(1, TSet "a:1" (VInt 1) 16 ["ta"]); (2, TSet "a:2" (VInt 2) 320 ["ta"]); (3, TIncr "b:1" 1 64 ["g:1"]); (40, TSet "a:1" (VInt 7) 160 [])].
+Example C12_ttl_example :
+  Forall (fun te => ev_okT (snd te)) h_ttl /\ mono 0 h_ttl /\ excl_f20 REG KEYS empty h_ttl = false /\
+  let '(m, i) := run_t REG KEYS empty (fun _ => []) h_ttl in
+  (i "a:1", i "a:2", i "b:1", map (fun k => isSome (s_look (tag_step REG KEYS m 50 (TDeleteTags "ta")) 50 k)) ["a:1"; "a:2"; "b:1"])
+  = ([], ["ta"], ["g:1"], [true; false; true]).
+Proof.
+  assert (NT : forall k, (k = "a:1" \/ k = "a:2" \/ k = "b:1") -> not_tagkey k) by (intros k [->|[->| ->]] t E; discriminate).
+  split; [repeat constructor; cbn [snd ev_okT]; apply NT; auto|].
+  split; [cbn; lia|]. split; vm_compute; reflexivity.
 Qed.
